@@ -462,7 +462,12 @@ func TestVerifConn(t *testing.T) {
 		SetLoggerOutput(logf)
 		defer os.Remove(logf.Name())
 	}
-	vcInstallHooks()
+	raceMode := vfEnvStr("VERIF_RACE_MODE", "")
+	if raceMode == "" {
+		vcInstallHooks()
+	} else {
+		vrInstall(raceMode, seed) // -race runs: no trace, no synchronising handler
+	}
 	Initialize()
 	vfOpenOut() // before any trial lowers the descriptor limit
 
@@ -567,7 +572,10 @@ func TestVerifConn(t *testing.T) {
 		}
 	}
 	hits := map[string]uint64{}
-	for i := 1; i < vpCount && i < len(vcHits); i++ {
+	if raceMode != "" {
+		hits = vrHitsSnapshot()
+	}
+	for i := 1; i < vpCount && i < len(vcHits) && raceMode == ""; i++ {
 		if h := atomic.LoadUint64(&vcHits[i]); h > 0 {
 			hits[vcPointName(i)] = h
 		}
